@@ -253,6 +253,22 @@ def self_inconsistent(snap, is_request, req_method=None):
     if fr[0] == "ambiguous": return "ambiguous:" + str(fr[1])
     if fr[0] == "cl" and fr[1] != len(body): return "content-length-differs-from-body"
     if fr[0] == "none" and body: return "body-without-framing"
+    # ... or the edited head no longer passes mitmproxy's own validate_headers (the proviso of the round-trip theorems), e.g. a
+    # second Content-Length with the SAME value: fine for the strict reader, 'invalid content-length header: 0, 0' for mitmproxy
+    # (Http1Client.send then raises after the request has gone out)
+    from mitmproxy import http
+    from mitmproxy.net.http import validate
+    hdrs = http.Headers(fields)
+    try:
+        if is_request:
+            m = http.Request(host="", port=0, method=unhx(snap["method"]), scheme=b"", authority=b"", path=b"/", http_version=unhx(snap["version"]),
+                             headers=hdrs, content=None, trailers=None, timestamp_start=0, timestamp_end=0)
+        else:
+            m = http.Response(http_version=unhx(snap["version"]), status_code=snap["status"], reason=b"", headers=hdrs, content=None,
+                              trailers=None, timestamp_start=0, timestamp_end=0)
+        validate.validate_headers(m)
+    except ValueError as e:
+        return "validate_headers: " + str(e)
     return None
 
 
@@ -604,8 +620,9 @@ class Check(PropertyCheck):
         """F-C01a, exactly as recorded.  Input class: an exchange with an addon edit that WRITES Content-Length,
         Transfer-Encoding or a non-token field name on one side (request / response) of flow i.  Failure: a clause of the
         round-trip sentence for THAT side ('req:' / 'resp:' — not the ambiguity, pairing or other-side clauses).  Observation:
-        (1) the message flow i holds after the edits no longer describes itself (strict reader: ambiguous fields, bad name, or
-        a Content-Length / no framing that differs from the body the flow holds), (2) the proxy wrote the edited field line
+        (1) the message flow i holds after the edits breaks the proviso of the round-trip theorems: it no longer describes itself
+        (strict reader: ambiguous fields, bad name, or a Content-Length / no framing that differs from the body the flow holds)
+        or it no longer passes mitmproxy's own validate_headers, (2) the proxy wrote the edited field line
         verbatim on that side's connection, (3) the same case WITHOUT the framing-writing edits of that side passes every
         clause of the oracle (the failure is the edit's, nothing else is excused)."""
         if case.get("op", "x") != "x": return None
@@ -648,6 +665,11 @@ class Check(PropertyCheck):
                                   ("response", b"Content-Length", b"7", "add"), ("response", b"Transfer-Encoding", b"chunked", "add")]:
             c = mk(at, name, val, op); o = self.impl(c); fs = self.oracle(c, o)
             assert fs and all(self.known(c, o, f) == "F-C01a" for f in fs), ("F-C01a witness no longer classified", at, name, val, fs)
+        # a second Content-Length with the SAME value: self-describing for the strict reader, but no longer valid for mitmproxy
+        # (Http1Client.send raises after request #0 went out; the pipelined request #1 is recorded and never forwarded)
+        c = mk("requestheaders", b"Content-Length", b"3"); c["client_hex"] = hx(req + req); c["resps"] = c["resps"] * 2
+        o = self.impl(c); fs = self.oracle(c, o)
+        assert fs and all(self.known(c, o, f) == "F-C01a" for f in fs), ("F-C01a (duplicate Content-Length) witness no longer classified", fs)
         c = mk("request", b"Content-Length", b"7"); o = self.impl(c); fs = self.oracle(c, o)
         # (a) same input class, different failure: other clauses / the other side
         for other in ("resp-pairing: the response relayed for request #0 is not the one the server sent for it (differs in ['body'])",
